@@ -856,6 +856,9 @@ func C06Generate(r *rand.Rand, cfg C06Config) *C06Case {
 	}
 	// every grouping that can be reached gets at least two instances
 	g.ensureTwo()
+	if g.chance(0.04) {
+		g.traps()
+	}
 
 	c := &C06Case{Faulty: g.faulty}
 	c.Names, c.Texts = g.render(nil)
@@ -865,6 +868,56 @@ func C06Generate(r *rand.Rand, cfg C06Config) *C06Case {
 	}
 	g.late(c)
 	return c
+}
+
+// traps plants references that must NOT resolve although a grouping of that name is near: a prefix
+// that only an included submodule imports, and a chain of two prefixes (defect D44).
+func (g *c06) traps() {
+	topGrouping := func(m *Module) string {
+		for _, k := range m.Body.Kids {
+			if k.Kw == "grouping" {
+				return k.Arg
+			}
+		}
+		return ""
+	}
+	for _, m := range g.set.Mods {
+		if m.Sub {
+			continue
+		}
+		// (a) only the submodule imports y (as zz); the module writes uses zz:g
+		for _, s := range m.Includes {
+			for _, y := range g.set.Mods {
+				if y.Sub || y == m {
+					continue
+				}
+				if _, ok := s.ImportPrefix[y]; ok {
+					continue
+				}
+				if gn := topGrouping(y); gn != "" {
+					s.Imports = append(s.Imports, y)
+					s.ImportPrefix[y] = "zz"
+					g.seq++
+					c := g.add(m.Body, "container", fmt.Sprintf("trap%d", g.seq))
+					g.add(c, "uses", "zz:"+gn)
+					g.faulty = true
+					return
+				}
+			}
+		}
+		// (b) m imports x, x imports z: uses px:pz:g
+		for _, x := range m.Imports {
+			for _, z := range x.Imports {
+				if gn := topGrouping(z); gn != "" && z != m {
+					g.seq++
+					c := g.add(m.Body, "container", fmt.Sprintf("trap%d", g.seq))
+					g.add(c, "uses", m.ImportPrefix[x]+":"+x.ImportPrefix[z]+":"+gn)
+					g.faulty = true
+					return
+				}
+			}
+		}
+	}
 }
 
 // dataScopes lists the statements of the data trees (not inside groupings) that may hold a
